@@ -172,6 +172,11 @@ def judge(real: tg.Real, st: Stats, rng, ops=None, max_subsets=None, tag=""):
     w.update(kw)
     if not exact and "node" in kw and cond_cycle_behind(d, ref, kw["node"]):
       w["key"] = KNOWN_CYCLE_KEY
+    elif (d.cyclic and "subset" in kw and _cycle_behind(d, ref, kw["node"])
+          and _unexplained(ref, kw["node"], kw["goals"])):
+      # the accepted superset has no explaining path at all and a cycle lies behind the node: it was
+      # accepted by the "a revisited state is assumed solvable when it is the only way on" rule
+      w["key"] = KNOWN_CYCLE_ONLY_KEY
     st.violations.append(w)
 
   has_cache = {}
@@ -293,6 +298,19 @@ def _fresh_subset_ok(ops, d, n, G, sub):
 
 KNOWN_CYCLE_KEY = ("cyclic+conditional graph: a conditional node lying on a cycle behind the query node "
                    "is re-entered and the revisited state is assumed solvable")
+
+
+KNOWN_CYCLE_ONLY_KEY = ("cyclic graph (no condition involved): a state revisited around a cycle is assumed solvable when "
+                        "it is the only position left; a combination without any explaining path is accepted "
+                        "while a subset of it is (rightly) rejected")
+
+
+def _unexplained(ref, n, goals):
+  try:
+    return not ref.explained(n, tuple(goals))
+  except tg.Budget:
+    ref.steps = 0
+    return False
 
 
 def _cycle_behind(d, ref, n):
